@@ -94,16 +94,22 @@ Moved(rep, s, d, k) ==
               \cup {[p |-> Rebase(x.p, s, d), k |-> x.k] : x \in {y \in rep : IsPrefix(s, y.p)}}
          ELSE IF d \notin RPaths(rep) THEN rep \cup {[p |-> d, k |-> k]}
          ELSE rep
-Apply(rep, e) ==
+Apply0(rep, e) ==
     IF e.ty = "created" THEN Created(rep, e.src, e.k)
     ELSE IF e.ty = "deleted" THEN Deleted(rep, e.src)
     ELSE IF e.ty = "moved" THEN Moved(rep, e.src, e.dst, e.k)
     ELSE rep
-\* left fold of Apply over evs[lo..hi], by halving (recursion depth log n: feeds of several hundred events occur)
+\* TLC builds set values lazily (a filter over a union over a filter ...): a long feed would nest hundreds of them and
+\* overflow the Java stack when the result is finally enumerated; Cardinality enumerates and caches at every step.
+Apply(rep, e) == LET r == Apply0(rep, e) IN IF Cardinality(r) >= 0 THEN r ELSE r
+\* left fold of Apply over evs[lo..hi], by halving, the left half forced before the right one is started (TLC passes
+\* operator arguments lazily: an unforced fold would still nest one pending evaluation per event)
 RECURSIVE Fold(_, _, _, _)
 Fold(rep, evs, lo, hi) == IF lo > hi THEN rep
                           ELSE IF lo = hi THEN Apply(rep, evs[lo])
-                          ELSE LET mid == (lo + hi) \div 2 IN Fold(Fold(rep, evs, lo, mid), evs, mid + 1, hi)
+                          ELSE LET mid == (lo + hi) \div 2
+                                   left == Fold(rep, evs, lo, mid)
+                               IN IF Cardinality(left) >= 0 THEN Fold(left, evs, mid + 1, hi) ELSE left
 ApplyAll(rep, evs, i) == Fold(rep, evs, i, Len(evs))
 Depth1(rep) == {x \in rep : Len(x.p) = 1}
 ReplicaOK(start, evs, t, rec) ==
